@@ -50,6 +50,10 @@ def build_go_tools():
                 continue
             if os.path.exists(os.path.join(REPO, "go.sum")):
                 sh(["cp", os.path.join(REPO, "go.sum"), src])
+            if d == "harness" and os.environ.get("VERIF_COVER"):
+                # measurement only (tools/coverage.sh): statement coverage of /repo's code by the correspondence runs
+                tags = tags + ["-cover", "-coverpkg=./...,gopkg.in/typ.v4/..."]   # main must be instrumented too, or nothing is written
+                os.makedirs(os.environ.setdefault("GOCOVERDIR", os.path.join(WORK, "cover")), exist_ok=True)
             rc, log = sh(["go", "build"] + tags + ["-o", out, "."], cwd=src, env=GOENV)
             if rc != 0:
                 raise Internal("go build of %s failed:\n%s" % (d, log))
